@@ -32,9 +32,12 @@ import numpy as np
 from harness import datastore as S
 from harness.core import MachineryError
 
+# every operation of DataStore.tla except 'saveload': C11 does not quantify over save / load (C16 does;
+# a numeric dataset descriptor reloaded from hdf5 is a 0-d array, which merge_datasets cannot hash -
+# reported there as C16/c/dataset/continue-after-reload/...)
 ALLOPS = ['split_obs', 'split_channel', 'split_time', 'split_merge', 'subset_obs', 'subset_channel',
           'subset_time', 'sort_by', 'merge', 'odd_even', 'nested_odd_even', 'bin_time',
-          'time_as_observations', 'time_as_channels', 'df', 'copy', 'saveload', 'dict',
+          'time_as_observations', 'time_as_channels', 'df', 'copy', 'dict',
           'average_by', 'tensor', 'drop']
 INVS = ['Shape', 'CellAssoc', 'DescAttached']
 PID = 'C11'
@@ -44,13 +47,15 @@ def const(maxobj=3, maxrows=12, maxcols=9, maxtims=3, maxden=6):
     return {'MaxObj': maxobj, 'MaxRows': maxrows, 'MaxCols': maxcols, 'MaxTims': maxtims, 'MaxDen': maxden}
 
 
-def cfg(sources, depth, arglevel, c, *, emit=True, trace=False, props=True, ops='AllOps', emitmod=1,
+def cfg(sources, depth, arglevel, c, *, emit=True, trace=False, props=True, ops='C11Ops', emitmod=1,
         emitobs=0, binlen=2):
     lines = ['CONSTANTS', '  Sources = {' + ', '.join(str(s) for s in sources) + '}',
              f"  MaxObj = {c['MaxObj']}", f"  MaxRows = {c['MaxRows']}", f"  MaxCols = {c['MaxCols']}",
              f"  MaxTims = {c['MaxTims']}", f"  MaxDen = {c['MaxDen']}", f'  BinLen = {binlen}',
              f'  Depth = {depth}', f'  Ops <- {ops}', f'  ArgLevel = {arglevel}', f'  EmitMod = {emitmod}',
              f'  EmitObs = {emitobs}']
+    if trace:
+        lines[lines.index(f'  Ops <- {ops}')] = '  Ops <- AllOps'
     lines += ['SPECIFICATION TSpec'] if trace else ['INIT Init', 'NEXT Next']
     lines += [f'INVARIANT {i}' for i in INVS]
     if emit and not trace:
@@ -276,15 +281,15 @@ def run(ctx):
     total = 0
     # (name, sources, depth, arglevel, emit one in .., constants, ops, binlen)
     if thorough:
-        runs = [('size1_d2', [20122, 20312, 30321, 20111, 10110, 10130, 30113], 2, 2, 1, c, 'AllOps', 2),
-                ('d2_full', [10322, 20322, 30322, 10420, 20421, 20223], 2, 2, 1, c, 'AllOps', 2),
-                ('d2_full_b', [10432, 30423], 2, 2, 1, c, 'AllOps', 2),
-                ('d3_trim', [20222, 30222, 10320, 20322, 20223, 20312, 20122], 3, 1, 1, c, 'AllOps', 2),
+        runs = [('size1_d2', [20122, 20312, 30321, 20111, 10110, 10130, 30113], 2, 2, 1, c, 'C11Ops', 2),
+                ('d2_full', [10322, 20322, 30322, 10420, 20421, 20223], 2, 2, 1, c, 'C11Ops', 2),
+                ('d2_full_b', [10432, 20413], 2, 2, 1, c, 'C11Ops', 2),
+                ('d3_trim', [20222, 30222, 10320, 20312, 20122], 3, 1, 1, c, 'C11Ops', 2),
                 ('big_d2', [11820, 21822, 31821], 2, 1, 1, cbig, 'RowOps', 2)]
     else:
-        runs = [('size1_d2', [20122, 20312, 30321, 20111, 10110, 10420], 2, 1, 1, c, 'AllOps', 2),
-                ('d2_full', [10322, 30322, 20223], 2, 2, 4, c, 'AllOps', 2),
-                ('d3_trim', [20222], 3, 1, 12, c, 'AllOps', 2),
+        runs = [('size1_d2', [20122, 20312, 30321, 20111, 10110, 10420], 2, 1, 1, c, 'C11Ops', 2),
+                ('d2_full', [10322, 30322, 20223], 2, 2, 4, c, 'C11Ops', 2),
+                ('d3_trim', [20222], 3, 1, 12, c, 'C11Ops', 2),
                 ('big_d2', [11820, 21822], 2, 1, 1, cbig, 'RowOps', 2)]
     ctx.exhaustive = all(x[4] == 1 for x in runs)
     for name, sources, depth, al, mod, cc, ops, binlen in runs:
@@ -300,7 +305,7 @@ def run(ctx):
                 timeout=900, deque=True, count=False)
     ctx.extra['mirror_objects_checked'] = mirror_check(ctx, r)
     # long random behaviours of the specification (trimmed argument domains keep -simulate usable)
-    nsim, dsim = (30, 10) if thorough else (2, 6)     # traces per worker; every trace emits all its last successors
+    nsim, dsim = (10, 10) if thorough else (2, 6)     # traces per worker; every trace emits all its last successors
     r = ctx.tlc('MC_DataStore', cfg([20322, 30322, 10420, 20223], dsim, 1, const(maxobj=4), props=False),
                 name='sim', simulate=f'num={nsim}', depth=dsim + 1, workers=16, timeout=1200)
     if r.n_emitted < 16 * nsim:
